@@ -483,3 +483,111 @@ impl Engine for WorldEngine {
 
 #[allow(dead_code)]
 fn _unused(_: BTreeSet<u8>) {}
+
+// ------------------------------------------------------------------------------------------------------------------
+// Harness-side token helpers (independent of the library's decoder)
+// ------------------------------------------------------------------------------------------------------------------
+
+/// Strict base64url (no padding, canonical trailing bits) decoder.
+pub fn b64url_decode(s: &str) -> Option<Vec<u8>> {
+  fn val(c: u8) -> Option<u32> {
+    match c {
+      b'A'..=b'Z' => Some((c - b'A') as u32),
+      b'a'..=b'z' => Some((c - b'a') as u32 + 26),
+      b'0'..=b'9' => Some((c - b'0') as u32 + 52),
+      b'-' => Some(62),
+      b'_' => Some(63),
+      _ => None,
+    }
+  }
+  let b = s.as_bytes();
+  if b.len() % 4 == 1 {
+    return None;
+  }
+  let mut out = Vec::with_capacity(b.len() * 3 / 4);
+  let mut acc: u32 = 0;
+  let mut bits = 0;
+  for c in b {
+    acc = (acc << 6) | val(*c)?;
+    bits += 6;
+    if bits >= 8 {
+      bits -= 8;
+      out.push((acc >> bits) as u8);
+      acc &= (1 << bits) - 1;
+    }
+  }
+  if acc != 0 {
+    return None; // non-canonical trailing bits
+  }
+  Some(out)
+}
+
+pub struct ParsedCompact {
+  pub header_b64: String,
+  pub payload_b64: String,
+  pub sig: Vec<u8>,
+  pub header: Value,
+  pub payload: Option<Value>,
+}
+
+/// Splits a compact JWS into its three segments and decodes header / payload as JSON. None = not decodable.
+pub fn parse_compact(token: &str) -> Option<ParsedCompact> {
+  let parts: Vec<&str> = token.split('.').collect();
+  if parts.len() != 3 {
+    return None;
+  }
+  let header_bytes = b64url_decode(parts[0])?;
+  let header: Value = serde_json::from_slice(&header_bytes).ok()?;
+  if !header.is_object() {
+    return None;
+  }
+  let payload_bytes = b64url_decode(parts[1])?;
+  let payload: Option<Value> = serde_json::from_slice(&payload_bytes).ok();
+  let sig = b64url_decode(parts[2])?;
+  Some(ParsedCompact {
+    header_b64: parts[0].to_owned(),
+    payload_b64: parts[1].to_owned(),
+    sig,
+    header,
+    payload,
+  })
+}
+
+/// Signature truth (DESIGN D.3): the token's `protected '.' payload` and signature are exactly those of a signing
+/// event logged at some party's `JwkStorage::sign` seam for the key whose public `x` is `x`.
+pub fn sig_truth(parties: &[&Party], signing_input: &[u8], sig: &[u8], x: &str) -> bool {
+  parties.iter().any(|p| {
+    p.ctl
+      .sign_log
+      .borrow()
+      .iter()
+      .any(|e| e.public_x == x && e.signature == sig && e.signing_input == signing_input)
+  })
+}
+
+/// Looks a method up in a document's JSON the way the validators are specified to: by full id or fragment, within
+/// an optional scope. Returns (method id, JWK JSON).
+pub fn doc_method(doc: &Value, query: &str, scope: Option<crate::engines::docmodel::Scope>) -> Option<(String, Value)> {
+  let m = crate::engines::docmodel::ModelDoc::from_json(doc);
+  let c = m.resolve_method_candidates(query, scope);
+  match c.first() {
+    Some(Some(v)) => Some((
+      crate::engines::docmodel::vid(v).to_owned(),
+      v.get("publicKeyJwk").cloned().unwrap_or(Value::Null),
+    )),
+    _ => None,
+  }
+}
+
+pub fn did_of_url(url: &str) -> &str {
+  let end = url.find(['#', '?', '/']).unwrap_or(url.len());
+  &url[..end]
+}
+
+pub fn is_did(s: &str) -> bool {
+  CoreDID::parse(s).is_ok()
+}
+
+pub fn variant_names(errs: &[identity_credential::validator::JwtValidationError]) -> Vec<&'static str> {
+  errs.iter().map(|e| e.into()).collect()
+}
